@@ -84,16 +84,19 @@ def file_pairs(ctx):
             "km_junk": j(km_junk), "r2_note": j(r2_note), "r1_odd": j(r1_odd), **{k: j(v) for k, v in odd_docs.items()},
             # the same signed document with the escaped line feed / tab of a string written as the literal control character: not JSON
             "r2_note_literal_lf": j(r2_note).replace(b"\\n", b"\n"), "r2_note_literal_tab": j(r2_note).replace(b"\\t", b"\t"),
+            # correctly signed files with one more top-level member next to "signatures" and "signed": not envelopes for the library
+            "r1_extra": j(dict(r1, comment="mirror of upstream")), "r2_extra": j(dict(r2, comment="mirror of upstream")), "km_extra": j(dict(km, fetched="2024-01-01")),
             "missing": None, "r2_bom": b"\xef\xbb\xbf" + j(r2), "nonascii_type": j({"signatures": {}, "signed": {"type": "röle\ud800"}})}
     pairs = [("r1", "r2"), ("r1", "r2_one"), ("r1", "r3"), ("r2", "r3"), ("r1", "r1"), ("r2", "r1"), ("r1", "r2_raw"), ("r1", "r2_self"), ("r1", "km"), ("r1", "km_gpg"),
              ("km_rootdeleg", "root_raw_by2"), ("km_rootdeleg", "root_gpg_by2"), ("r1_unmeetable", "km_wrongkey"), ("r1_unmeetable", "r2_unsigned"), ("r1_unmeetable", "km"),
              ("r1_odd", "ty_null"), ("r1_odd", "ty_7"), ("r1_odd", "ty_true"), ("r1_odd", "ty_list"), ("r1_odd", "ty_float"), ("r1_odd", "ty_obj"),
              ("r1", "km_junk"), ("r1", "r2_note"), ("r1", "r2_note_literal_lf"), ("r1", "r2_note_literal_tab"),
+             ("r1", "r2_extra"), ("r1_extra", "r2"), ("r1", "km_extra"), ("r1_extra", "km"),
              ("r1", "km_unsigned"), ("r1", "km_wrongkey"), ("r1", "root_as_km"), ("km", "pkg"), ("r1", "other"), ("r1_pkg", "other"), ("km", "r2"), ("r2", "km")]
     bad = ["empty", "garbage", "list", "string", "nosigned", "signed_list", "type_int", "type_null", "notype", "truncated", "nan", "utf16", "missing", "r2_bom", "nonascii_type"]
     pairs += [("r1", b) for b in bad] + [(b, "r2") for b in bad] + [(b, "km") for b in bad[:6]] + [("missing", "missing"), ("garbage", "garbage")]
     if ctx.quick:
-        pairs = pairs[:33] + rng.sample(pairs[33:], 14)
+        pairs = pairs[:37] + rng.sample(pairs[37:], 14)
     return docs, pairs
 
 
@@ -165,6 +168,11 @@ def run(ctx):
                     "binary": None}
         repos = {"ok": json.dumps(repo_ok).encode(), "nopackages": b'{"info": {}}', "conda_only": json.dumps({"packages": {}, "packages.conda": repo_ok.get("packages.conda") or {"z-1.conda": {"name": "z"}}, "signatures": {"stale": {}}}).encode(),
                  "empty_sections": b'{"packages": {}, "packages.conda": {}, "signatures": {"stale": 1}}', "packages_list": b'{"packages": []}', "notjson": b"{", "list": b"[]", "missing": None}
+        # the file was signed before with the same key and an artifact's metadata changed since: the old entries are stale, signing must replace them
+        stale = dict(repo_ok, signatures={n: {PUBHEX[0]: E.raw_sig(0, dict(mdv, build_number=0))} for sec in ("packages", "packages.conda") for n, mdv in repo_ok[sec].items()})
+        repos["stale_same_key"] = json.dumps(stale).encode()
+        half = dict(repo_ok, signatures={"a-1.0-0.tar.bz2": {PUBHEX[0]: E.raw_sig(0, {"name": "a"})}, "b-1.0-0.tar.bz2": {PUBHEX[0]: E.raw_sig(0, {"name": "b (old)"})}})
+        repos["half_stale_same_key"] = json.dumps(half).encode()
         sjobs = []
         for kn in keytexts:
             for rn in (repos if kn in ("good", "short") else ["ok"]):
